@@ -134,6 +134,27 @@ class Func:
         self.entry = d.get("entry")
         self.exit = d.get("exit")
         self.cfg_failed = bool(d.get("cfg_failed"))
+        # `if (A && B)`: the block that ends in the IfStmt evaluates only B (it
+        # is reached with A true), so on its edges the whole condition is
+        # equivalent to its rightmost operand.  Narrow it once, here; the
+        # operands to the left are branch conditions of dominating blocks.
+        for b in self.blocks.values():
+            t = b.term
+            if t and "cond" in t and t["kind"] != "BinaryOperator":
+                c = t["cond"]
+                for _ in range(32):
+                    e = self.exprs[c]
+                    if e["k"] in ("cast",) and e.get("ck") in ("LValueToRValue", "NoOp", "IntegralToBoolean") and \
+                            self.exprs[e["c"][0]]["k"] == "bin" and self.exprs[e["c"][0]].get("op") in ("&&", "||"):
+                        c = e["c"][0]
+                        continue
+                    if e["k"] == "bin" and e.get("op") in ("&&", "||"):
+                        c = e["c"][1]
+                        continue
+                    break
+                if c != t["cond"]:
+                    t["cond_full"] = t["cond"]
+                    t["cond"] = c
         for b in self.blocks.values():
             if b.noret:
                 b.succs = []
